@@ -173,6 +173,9 @@ class BeltStore(Store):
 
         """
         # Check if there's enough space to reserve
+        if self.reservations_put:
+            # one item enters the belt at a time: the next grant waits until the granted one has been put
+            return
         if self.items:
             if len(self.reservations_put) + len(self.items) +len(self.ready_items) < self.capacity:
               
